@@ -643,3 +643,48 @@ get_binned_counts = Contract(
                  'contract above; pandas.DataFrame(...).T is the table of the dictionary (A4)'],
 )
 UNITS.append(get_binned_counts)
+
+
+# ------------------------------------------------------------------------------ generate_jobs over several contigs (bounded, real code)
+# the unit above verifies one arbitrary contig and assumes contigs are handled independently; here the real generator runs on
+# header-only BAM files with several contigs of mixed lengths: every contig is tiled from 0 in steps of bin_size*bins_per_job
+def generate_jobs_history(tier, seed):
+    import itertools
+    import json
+    import os
+    from pyvc import bamreplay as B
+    from pyvc.contract import import_real
+    fn = import_real(F, 'generate_jobs')
+    n = 0
+    d = B.scratch('c12g_')
+    try:
+        for lengths in ((7, 50), (50, 7), (13, 13, 100), (100, 5, 33), (1, 64)):
+            contigs = [('ctg%d' % i, L) for i, L in enumerate(lengths)]
+            path = os.path.join(d, 'h_%s.bam' % '_'.join(map(str, lengths)))
+            B.write_bam(path, contigs, [])
+            for b, m in itertools.product((1, 3, 8, 10), (1, 2, 5)):
+                W = b * m
+                want = [(c, j * W, (j + 1) * W) for c, L in contigs for j in range(-(-L // W))]
+                try:
+                    got = [tuple(x) for x in fn(path, b, m)]
+                except Exception as e:      # noqa: BLE001
+                    got = '%s: %s' % (type(e).__name__, e)
+                n += 1
+                if got != want:
+                    out = os.environ.get('VERIF_OUT', '.')
+                    os.makedirs(os.path.join(out, 'replays', PROP), exist_ok=True)
+                    rp = 'replays/%s/generate_jobs_contigs.json' % PROP
+                    json.dump({'property': PROP, 'obligation': '%s/generate_jobs[several contigs]' % PROP,
+                               'replay': {'status': 'confirmed', 'contigs': contigs, 'bin_size': b, 'bins_per_job': m,
+                                          'observed': got if isinstance(got, str) else [list(x) for x in got][:12],
+                                          'expected': [list(x) for x in want][:12]}}, open(os.path.join(out, rp), 'w'), indent=1)
+                    return {'result': 'violation', 'replay': rp, 'confirmed': True, 'calls': n}
+    finally:
+        B.cleanup(d)
+    return {'result': 'clean', 'calls': n}
+
+
+from pyvc.units import Bounded      # noqa: E402
+UNITS.append(Bounded(PROP, 'generate_jobs[several contigs of mixed lengths, real header-only BAM files]', generate_jobs_history,
+                     '5 contig lists (2-3 contigs, lengths 1..100) x bin size 1,3,8,10 x bins per job 1,2,5',
+                     'exhaustive run of the real generator against the specification'))
